@@ -22,6 +22,8 @@ type cenv struct {
 	nq    *int
 	depth int
 	side  *[]string // heap well-formedness facts about loaded terms
+	qside *[]string // the same for terms under a quantifier (guards inside the binder)
+	qbind []string  // binders "(name Sort)" of the enclosing quantifiers
 	// recSyms: recursive spec functions currently being defined -> their symbol
 	recSyms map[string]string
 }
@@ -29,6 +31,13 @@ type cenv struct {
 // noteLoad records the well-formedness of a term loaded from the heap (refs are
 // allocated, slices are well shaped): an invariant of the memory model.
 func (e *cenv) noteLoad(v val) val {
+	if strings.Contains(v.t, "q!") && e.qside != nil {
+		// a load under a quantifier: its well-formedness guards the quantifier body
+		if f := e.g.wf(v.t, v.typ, "", 0); f != "true" {
+			*e.qside = append(*e.qside, f)
+		}
+		return v
+	}
 	if e.side == nil || strings.Contains(v.t, "q!") || strings.Contains(v.t, "a!") {
 		return v
 	}
@@ -63,6 +72,11 @@ func (e *cenv) with(vars map[string]val) *cenv {
 
 var untypedNil = types.Typ[types.UntypedNil]
 var tInt = types.Typ[types.Int]
+
+// tMathInt is the type of unbounded integers in contract expressions: the result of
+// contract arithmetic (which never wraps) and of the spec type mathint.  Converting it
+// to a machine integer type wraps.
+var tMathInt = types.NewNamed(types.NewTypeName(0, nil, "mathint", nil), types.Typ[types.Int], nil)
 var tBool = types.Typ[types.Bool]
 var tString = types.Typ[types.String]
 var tFloat64 = types.Typ[types.Float64]
@@ -136,8 +150,11 @@ func (g *fgen) resolveType(ct *ctype, pkg *types.Package) (types.Type, error) {
 		return &seqType{t}, nil
 	case "name":
 		name := ct.name
-		if name == "ref" || name == "mathint" {
+		if name == "ref" {
 			return tInt, nil
+		}
+		if name == "mathint" {
+			return tMathInt, nil
 		}
 		if name == "real" {
 			return realType{}, nil
@@ -702,7 +719,7 @@ func (e *cenv) binary(x *cBinary) val {
 	case "<", "<=", ">", ">=":
 		return val{fmt.Sprintf("(%s %s %s)", x.op, a.t, b.t), tBool, "Bool"}
 	case "+", "-", "*":
-		return val{fmt.Sprintf("(%s %s %s)", x.op, a.t, b.t), a.typ, "Int"}
+		return val{fmt.Sprintf("(%s %s %s)", x.op, a.t, b.t), tMathInt, "Int"}
 	case "/":
 		return val{fmt.Sprintf("(tdiv %s %s)", a.t, b.t), a.typ, "Int"}
 	case "%":
@@ -740,7 +757,36 @@ func (e *cenv) quant(x *cQuant) val {
 			ranges = append(ranges, r)
 		}
 	}
-	body := e.with(vars).bool(x.body)
+	inner := e.with(vars)
+	var qside []string
+	inner.qside = &qside
+	inner.qbind = append(append([]string{}, e.qbind...), binders...)
+	body := inner.bool(x.body)
+	if len(qside) > 0 {
+		// Loads under the binder are well formed (memory-model invariant).  The body is
+		// guarded by that (sound in goal position) and the invariant itself is stated
+		// as a quantified side fact (so the guard costs nothing in assumed position).
+		seen := map[string]bool{}
+		var fs []string
+		for _, f := range qside {
+			if !seen[f] {
+				seen[f] = true
+				fs = append(fs, f)
+				if e.side != nil && !strings.Contains(f, "a!") {
+					var bs []string
+					for _, b := range inner.qbind {
+						if strings.Contains(f, strings.Fields(b[1:])[0]) {
+							bs = append(bs, b)
+						}
+					}
+					if len(bs) > 0 {
+						*e.side = append(*e.side, fmt.Sprintf("(forall (%s) %s)", strings.Join(bs, " "), f))
+					}
+				}
+			}
+		}
+		ranges = append(ranges, fs...)
+	}
 	rg := and(ranges...)
 	if x.forall {
 		return val{fmt.Sprintf("(forall (%s) %s)", strings.Join(binders, " "), implies(rg, body)), tBool, "Bool"}
@@ -757,6 +803,15 @@ func (e *cenv) convert(v val, t types.Type) val {
 	if ii, ok := intInfoOf(t); ok {
 		if v.sort == "Int" {
 			if v.typ == types.Typ[types.UntypedInt] {
+				return val{v.t, t, "Int"}
+			}
+			if v.typ == tMathInt {
+				if t == tMathInt {
+					return v
+				}
+				return val{wrapTerm(ii, v.t), t, "Int"}
+			}
+			if t == tMathInt {
 				return val{v.t, t, "Int"}
 			}
 			if si, ok := intInfoOf(v.typ); ok && si.bits <= ii.bits && (si.signed == ii.signed || (!si.signed && si.bits < ii.bits)) {
@@ -1251,25 +1306,31 @@ func (e *cenv) specCall(sf *specFunc, args []val) val {
 			}
 			if !g.declared[name] {
 				g.declared[name] = true
-				g.emit(fmt.Sprintf("(declare-fun %s (%s) %s)", name, strings.Join(ss, " "), g.sortOf(rt)))
+				// fuel-limited unfolding (no matching loops): the symbol takes a Fuel
+				// argument; the definition unfolds (FS f) into body over f, and fuel is
+				// irrelevant to the value.  Uses outside the definition get two units.
+				if !g.declared["sort:Fuel"] {
+					g.declared["sort:Fuel"] = true
+					g.emit("(declare-datatypes ((Fuel 0)) (((FZ) (FS (fpred Fuel)))))")
+				}
+				g.emit(fmt.Sprintf("(declare-fun %s (%s) %s)", name, strings.TrimSpace("Fuel "+strings.Join(ss, " ")), g.sortOf(rt)))
 				n := &cenv{g: g, st: e.st, old: e.old, vars: vars, pkg: pkg, nq: e.nq, depth: e.depth + 1, recSyms: map[string]string{}}
 				for k, v := range e.recSyms {
 					n.recSyms[k] = v
 				}
-				n.recSyms[sf.name] = name
+				n.recSyms[sf.name] = name + " f!fuel"
 				r := n.tr(sf.body)
 				var an []string
 				for _, p := range sf.params {
 					an = append(an, "a!"+p.name)
 				}
-				app := name
-				if len(an) > 0 {
-					app = "(" + name + " " + strings.Join(an, " ") + ")"
-					g.emit(fmt.Sprintf("(assert (forall (%s) (! (= %s %s) :pattern (%s))))", strings.Join(bs, " "), app, r.t, app))
-				} else {
-					g.emit(fmt.Sprintf("(assert (= %s %s))", app, r.t))
-				}
+				fb := append([]string{"(f!fuel Fuel)"}, bs...)
+				hi := strings.TrimSpace("(" + name + " (FS f!fuel) " + strings.Join(an, " ")) + ")"
+				lo := strings.TrimSpace("(" + name + " f!fuel " + strings.Join(an, " ")) + ")"
+				g.emit(fmt.Sprintf("(assert (forall (%s) (! (= %s %s) :pattern (%s))))", strings.Join(fb, " "), hi, r.t, hi))
+				g.emit(fmt.Sprintf("(assert (forall (%s) (! (= %s %s) :pattern (%s))))", strings.Join(fb, " "), hi, lo, hi))
 			}
+			name = name + " (FS (FS FZ))"
 		}
 	}
 	var as []string
